@@ -522,9 +522,11 @@ impl Shared {
             self.emit_connack(c, e, clean);
             return;
         }
-        let mut fail = false;
+        let mut fail = 0u8;
         if self.explore() && self.cfg.broker.ack_fail && self.broker.can_fail(e) {
-            fail = self.ch.choose(K_VARIANT, 2, 0) == 1;
+            // 0 = plain success, 1 = failure code, 2 = success with a non-zero reason (PUBACK / PUBREC 0x10)
+            let n = if self.broker.can_succeed_nonzero(e) { 3 } else { 2 };
+            fail = self.ch.choose(K_VARIANT, n, 0) as u8;
         }
         let pkt = self.broker.emit(e, fail);
         self.push_inbound(c, pkt);
